@@ -295,6 +295,42 @@ static void f_op(char *line)
 		printf("wa=%s wb=%s wcodes=%s encA=%zu encB=%zu psig=%d", vh_st(wa), vh_st(wb), wcodes, sa.n, sb.n, payload_claimed(both, an + bn));
 		decode(fl, nf, !strcmp(w[7], "all"), cat, sa.n + sb.n, strtoul(w[6], NULL, 10), both, an + bn);
 		free(sa.b); free(sb.b); free(cat); free(both); free(pa); free(pb);
+	} else if (n == 6 && !strcmp(w[0], "tr")) {
+		/* tr <text stack> <opts> <payload> <cut> <rblock>: encode, keep only a prefix of the encoded
+		 * bytes ("-k": drop the last k bytes, "pN": keep N/1000 of them, "lJ": begin line + J lines), read with exactly those filters.
+		 * st = ok (clean end) | fatal (any failure); on ok also whether the bytes read equal the payload */
+		int nf = parse_stack(w[1], fl);
+		size_t pn = 0; unsigned char *p = mk_payload(w[3], &pn);
+		if (nf <= 0 || p == NULL || !only_text(fl, nf)) { printf("bad-op\n"); return; }
+		struct sink sk = { NULL, 0, 0 }; char wcodes[128], optst[256];
+		int ws = encode(fl, nf, w[2], p, pn, "all", "-/1", &sk, wcodes, sizeof wcodes, optst, sizeof optst);
+		size_t lkeep = 0;
+		if (w[4][0] == 'l') {   /* "lJ": keep the first line (begin) and J more complete lines */
+			unsigned long want = strtoul(w[4] + 1, NULL, 10) + 1, seen = 0;
+			for (size_t i = 0; i < sk.n && seen < want; i++) if (sk.b[i] == '\n') { seen++; lkeep = i + 1; }
+		}
+		size_t keep = w[4][0] == 'l' ? lkeep : w[4][0] == '-' ? (sk.n >= strtoul(w[4] + 1, NULL, 10) ? sk.n - strtoul(w[4] + 1, NULL, 10) : 0)
+		    : (size_t)((unsigned long long)sk.n * strtoul(w[4] + 1, NULL, 10) / 1000);
+		struct archive *a = archive_read_new();
+		for (int i = 0; i < nf; i++) FT[fl[i]].sup(a);
+		archive_read_support_format_raw(a); archive_read_support_format_empty(a);
+		unsigned char *src = malloc(keep ? keep : 1); memcpy(src, sk.b, keep);
+		int bad = archive_read_open_memory2(a, src, keep, strtoul(w[5], NULL, 10)) != ARCHIVE_OK;
+		struct sink out = { NULL, 0, 0 }; struct archive_entry *e; int fc = 0;
+		if (!bad) {
+			int h = archive_read_next_header(a, &e);
+			fc = archive_filter_count(a) - 1;
+			if (h == ARCHIVE_OK) {
+				static unsigned char buf[70001];
+				for (;;) { la_ssize_t k = archive_read_data(a, buf, sizeof buf); if (k < 0) { bad = 1; break; } if (k == 0) break;
+					sink_write(NULL, &out, buf, (size_t)k); }
+			} else if (h != ARCHIVE_EOF) bad = 1;
+		}
+		printf("w=%s enc=%zu keep=%zu filters=%d st=%s", vh_st(ws), sk.n, keep, bad ? -1 : fc, bad ? "fatal" : "ok");
+		if (!bad) printf(" dec=%zu:%016llx full=%d", out.n, (unsigned long long)vh_fnv(out.b, out.n),
+		    out.n == pn && (pn == 0 || memcmp(out.b, p, pn) == 0));
+		printf("\n");
+		archive_read_free(a); free(src); free(out.b); free(sk.b); free(p);
 	} else if (n == 5 && !strcmp(w[0], "gz")) {
 		/* gz <header hex> <payload> <trailer hex (8 bytes, arbitrary)> <rblock>:
 		 * a hand-made gzip member (header with optional fields as given, raw deflate of the
